@@ -112,4 +112,10 @@ def fingerprint_url(url, unsplit=True, strip_suffix=False, platform_aware=False)
     if not unsplit:
         return result
 
-    return urlunsplit(result)[2:]
+    result = urlunsplit(result)
+
+    # NOTE: without a netloc there is no leading "//" to drop
+    if result.startswith("//"):
+        result = result[2:]
+
+    return result
